@@ -124,6 +124,21 @@ Shrink(x) ==
           /\ UNCHANGED stores
   /\ hist' = Append(hist, [op |-> "shrink", x |-> x])
 
+\* y = x + {k: v} for a key k that x already holds (maps; the harness has no array form): a functional update of one
+\* element. The code merges into a copy of x; an implementation that starts from x's own storage (CopyOnAppend = FALSE,
+\* large representation) overwrites the element for every binding sharing that storage.
+Overwrite(x, y, which) ==
+  /\ bind[x].len > 0
+  /\ LET i == IF which = 1 THEN 1 ELSE bind[x].len
+         v == Fresh
+     IN /\ val' = [val EXCEPT ![y] = [val[x] EXCEPT ![i] = v]]
+        /\ IF ~CopyOnAppend /\ bind[x].len > Small
+           THEN /\ stores' = [stores EXCEPT ![bind[x].id].elems[i] = v]
+                /\ bind' = [bind EXCEPT ![y] = bind[x]]
+           ELSE /\ stores' = Append(stores, NewStore([Read(bind[x]) EXCEPT ![i] = v]))
+                /\ bind' = [bind EXCEPT ![y] = [id |-> Len(stores) + 1, len |-> bind[x].len]]
+  /\ hist' = Append(hist, [op |-> "overwrite", x |-> x, y |-> y, which |-> which])
+
 Emit == EmitOn => EmitLine(ToJson([h |-> hist', val |-> val']))
 
 Next ==
@@ -134,6 +149,7 @@ Next ==
      \/ \E x, z, y \in Vars : Concat(x, z, y)
      \/ \E x, y \in Vars : CallMutate(x, y)
      \/ \E x \in Vars : Shrink(x)
+     \/ \E x, y \in Vars, w \in {1, 2} : Overwrite(x, y, w)
   /\ Emit
 
 Spec == Init /\ [][Next]_vars
